@@ -62,7 +62,7 @@ def replay(u, obs, prop, seed):
     if not rp:
         # default: the driver's test of the same name as the unit (alias/overlap variants share the base function's test)
         import re as _re
-        base = _re.sub(r'_(ovl|wu|wv|uv|wuv|ds|an|ad|ra|rb|ab|rab|ru|nq|nr|dq|dr|nqdr|nd|p1|p2|p3|p4|multi|safety|int|pow2)$', '', u['name'])
+        base = _re.sub(r'_(ovl|wu|wv|uv|wuv|ds|an|ad|ra|rb|ab|rab|ru|nq|nr|dq|dr|nqdr|nd|d3|d|null|p1|p2|p3|p4|multi|safety|int|pow2)$', '', u['name'])
         rp = {'mpz_inp_raw': 'raw', 'mpz_inp_raw_p': 'raw', 'mpz_inp_raw_m': 'raw', 'mpz_out_raw': 'raw', 'mpz_out_raw_m': 'raw'}.get(base, base)
     if rp:
         tmp = tempfile.mkdtemp(prefix='mpir-replay.')
@@ -121,7 +121,7 @@ def structural(u, reason, prop, seed):
     d = os.path.join(VERIF, 'replay', 'out')
     os.makedirs(d, exist_ok=True)
     path = os.path.join(d, '%s.%s.structural.replay.txt' % (prop, u['name']))
-    base = _re.sub(r'_(ovl|wu|wv|uv|wuv|ds|an|ad|ra|rb|ab|rab|ru|nq|nr|dq|dr|nqdr|nd|p1|p2|p3|p4|multi|safety|int|pow2)$', '', u['name'])
+    base = _re.sub(r'_(ovl|wu|wv|uv|wuv|ds|an|ad|ra|rb|ab|rab|ru|nq|nr|dq|dr|nqdr|nd|d3|d|null|p1|p2|p3|p4|multi|safety|int|pow2)$', '', u['name'])
     fn = u.get('replay') or {'mpz_inp_raw': 'raw', 'mpz_inp_raw_p': 'raw', 'mpz_inp_raw_m': 'raw', 'mpz_out_raw': 'raw', 'mpz_out_raw_m': 'raw'}.get(base, base)
     lines = ['property: %s' % prop, 'unit: %s' % u['name'], 'source: %s' % u['source'],
              'obligation: the loop structure of the function under contract changed, so its inductive invariants no longer attach:',
